@@ -62,6 +62,15 @@ func TestShrinkStore(t *testing.T) {
 		in.Wrap = "%s"
 	}
 	cands := []cand{{in.Cfg, cloneOps(in.Ops), "the history itself"}}
+	// ddmin: first try to drop whole chunks (halves, quarters, eighths), then single operations
+	for parts := 2; parts <= 8 && len(in.Ops) >= 2*parts; parts *= 2 {
+		sz := len(in.Ops) / parts
+		for at := 0; at < len(in.Ops); at += sz {
+			end := min(at+sz, len(in.Ops))
+			ops := cloneOps(in.Ops)
+			cands = append(cands, cand{in.Cfg, append(ops[:at], ops[end:]...), fmt.Sprintf("operations %d..%d dropped", at, end-1)})
+		}
+	}
 	for i := range in.Ops {
 		ops := cloneOps(in.Ops)
 		cands = append(cands, cand{in.Cfg, append(ops[:i], ops[i+1:]...), fmt.Sprintf("operation %d dropped", i)})
@@ -105,6 +114,10 @@ func TestShrinkStore(t *testing.T) {
 		c.NH--
 		return true
 	})
+	if len(cands) > 48 {
+		// keep rounds short: the first candidates are the largest reductions
+		cands = append(cands[:40], cands[len(cands)-8:]...)
+	}
 	w := emit.NewWriter(in.Imports, in.CaseType, in.Chk)
 	w.PerShard(12)
 	w.Rule = "delta-debugging round: the failing history and its one-step reductions"
